@@ -49,6 +49,10 @@ type H struct {
 	views         bool
 	lastRejectErr string
 	diverged      bool
+	Mir           *Mon // arbitrating mirror of the follower (mirror.go)
+	mirStale      bool
+	readers       *readerSet
+	idx           int
 }
 
 func vp(p params.VerifyTxn) ledger.VerifyParams {
@@ -148,13 +152,21 @@ func NewHistory(r *vf.Run, prop string, idx int, dir string) (*H, error) {
 		}
 		m.M.ApplyGenesis(*g)
 	}
+	h.idx = idx
+	if err := h.openMirror(); err != nil {
+		return nil, fmt.Errorf("open mirror: %v", err)
+	}
 	return h, nil
 }
 
 // Close closes both nodes
 func (h *H) Close() {
+	h.stopReaders()
 	h.Pub.N.Close()
 	h.Fol.N.Close()
+	if h.Mir != nil {
+		h.Mir.N.Close()
+	}
 }
 
 // Main is the entry point shared by cmd/c01..c07
@@ -266,8 +278,15 @@ func setFloors(r *vf.Run, prop string) {
 func (h *H) Run(nSteps int) {
 	h.views = h.Prop == "C07"
 	h.checkAll("init")
+	// concurrent read-only clients: every history of the C02 run, every fourth one elsewhere
+	if h.Prop == "C02" || h.idx%4 == 1 {
+		h.startReaders(2)
+		defer h.stopReaders()
+	}
 	for s := 0; s < nSteps; s++ {
 		h.R.Eval(1)
+		h.resyncMirror()
+		h.publishIDs()
 		h.step()
 		if h.R.Violations() > 20 {
 			return
